@@ -187,6 +187,28 @@ def _verify_unit(unit_path, repo, tier, twin, probe_only):
         res.update(status='undecided', undecided_reason='assemble: %s' % e, meta=None, wall_s=time.time() - t0)
         return res
     res['meta'] = meta
+    # mechanical scan for unchecked assumptions (Yang et al.): assume/admit are forbidden everywhere;
+    # external_body / assume_specification are counted by where they come from
+    scan = {'assume': 0, 'admit': 0, 'external_body_in_shims': 0, 'external_body_in_unit': 0, 'assume_specification': 0,
+            'uninterp_spec_fn': 0, 'axiom_or_broadcast': 0}
+    for ln, og in zip(text.split('\n'), origin):
+        code = ln.split('//')[0]
+        if re.search(r'\bassume\s*\(', code):
+            scan['assume'] += 1
+        if re.search(r'\badmit\s*\(', code):
+            scan['admit'] += 1
+        if 'external_body' in code or 'external_fn_specification' in code:
+            scan['external_body_in_shims' if og['kind'] == 'include' else 'external_body_in_unit'] += 1
+        if 'assume_specification' in code:
+            scan['assume_specification'] += 1
+        if re.search(r'\buninterp\s+spec\s+fn', code):
+            scan['uninterp_spec_fn'] += 1
+        if re.search(r'\b(axiom|broadcast)\b', code):
+            scan['axiom_or_broadcast'] += 1
+    res['assumption_scan'] = scan
+    if scan['assume'] or scan['admit']:
+        res.update(status='undecided', undecided_reason='unit contains assume()/admit(): %s' % scan, wall_s=time.time() - t0)
+        return res
     uid = meta['id'] or os.path.basename(unit_path)
     res['unit'] = uid
     path = os.path.join(WORK, os.path.basename(unit_path).replace('.vu', '') + '.rs')
